@@ -91,6 +91,7 @@ type Store struct {
 	maxCompactionLevels  int
 	SlowLogThreshold     time.Duration
 	MetaCtx              *MetaContext
+	parent               *Store // set on contextual stores: the store they were derived from
 }
 
 type BadgerLogger struct { // we use this to implement the Badger Logger interface
@@ -120,7 +121,18 @@ func NewContextualStore(store *Store) *Store {
 			QueriedDatasets: make(map[uint32]struct{}),
 			TransactionSink: make(map[string]struct{}),
 		},
+		parent: store,
 	}
+}
+
+// isDatasetDeleted tells if the dataset with the given internal id has been deleted.
+// The set of deleted datasets is replaced (not mutated) when a dataset is deleted, so a
+// contextual store must consult the store it was derived from to see later deletions.
+func (s *Store) isDatasetDeleted(datasetID uint32) bool {
+	if s.parent != nil {
+		return s.parent.isDatasetDeleted(datasetID)
+	}
+	return s.deletedDatasets[datasetID]
 }
 func (bl BadgerLogger) Errorf(format string, v ...interface{}) { bl.Logger.Errorf(format, v...) }
 func (bl BadgerLogger) Infof(format string, v ...interface{}) {
@@ -724,7 +736,7 @@ func (s *Store) GetEntityAtPointInTimeWithInternalID(
 		currentDatasetID = binary.BigEndian.Uint32(key[10:])
 
 		// check if dataset has been deleted, or must be excluded
-		datasetDeleted := s.deletedDatasets[currentDatasetID]
+		datasetDeleted := s.isDatasetDeleted(currentDatasetID)
 		datasetIncluded := len(targetDatasetIds) == 0 // no specified datasets means no restriction - all datasets are allowed
 		if !datasetIncluded {
 			for _, id := range targetDatasetIds {
@@ -1123,7 +1135,7 @@ func (s *Store) GetRelatedAtTime(from *RelatedFrom, limit int) ([]qresult, *Rela
 					}
 				}
 
-				if s.deletedDatasets[datasetID] || !datasetIncluded {
+				if s.isDatasetDeleted(datasetID) || !datasetIncluded {
 					continue
 				}
 
@@ -1261,7 +1273,7 @@ func (s *Store) GetRelatedAtTime(from *RelatedFrom, limit int) ([]qresult, *Rela
 					}
 				}
 
-				if s.deletedDatasets[datasetID] || !datasetIncluded {
+				if s.isDatasetDeleted(datasetID) || !datasetIncluded {
 					continue
 				}
 
